@@ -990,7 +990,8 @@ def c08(ctx):
     ctx.rule = ("MC: Loader.tla pulls every index of a stream of length <=6 through take/skip/step_by for all ranks of a world <=3 x all "
                 "skip, limit, fast-forward values: the adaptor chain equals the closed form, rank streams are disjoint, their union is "
                 "the single-process stream restricted by skip and limit, skip=k / limit=k split the data, fast_forward(k) is the stream "
-                "after its first k items (world 1; k = m*W for a world of W); termination. A: TLC-enumerated groups (3 file shapes x 3 "
+                "after its first k items (world 1; k = m*W for a world of W); termination; thorough tier: the same arithmetic proved with TLAPS "
+                "for unbounded stream length / skip / limit / offset and worlds of 1-4 ranks (spec/proofs/LoaderShard.tla). A: TLC-enumerated groups (3 file shapes x 3 "
                 "strategies x epochs x pipelines x world 1..3 x skip x limit x fast-forward x shuffle), each with a reference run and "
                 "every rank x {0, 2, 4} threads x buffer {1, 0, 4}, on the real TrainLoader (guarded driver hook) over jsonl files written "
                 "at run time; B: random groups with all preprocessing variants (whitespace / artificial, realistic and mixed spelling "
@@ -1000,6 +1001,9 @@ def c08(ctx):
                        "thread counts / buffer sizes is what is checked"]
     vlib.mc(ctx, "Loader", "CONSTANTS MaxN = %d MaxWorld = 3\nSPECIFICATION Spec\nINVARIANTS ClosedForm Disjoint UnionIsSingle SplitAtK Resume "
             "ResumeWorld\nPROPERTY Terminates\nCHECK_DEADLOCK FALSE\n" % (5 if q else 7), name="Loader", workers=8)
+    if not q:
+        # the arithmetic core (sharding, train/validation split, resume) for every stream length, skip, limit and offset
+        vlib.tlaps(ctx, "LoaderShard")
     pipes = '{"none", "spell"}' if q else '{"none", "ws", "spell", "switch"}'
     gcfg = "CONSTANTS MaxSkip = %d Pipelines = %s\nINIT Init\nNEXT Next\nCHECK_DEADLOCK FALSE\n" % (1 if q else 2, pipes)
     cases, n = vlib.tlc_generate(ctx, "Gen_Loader", gcfg, "cases-a.ndjson")
